@@ -2,19 +2,35 @@ package main
 
 import (
 	"fmt"
+	"os"
 
-	"codeberg.org/TauCeti/mangle-go/ast"
-	"codeberg.org/TauCeti/mangle-go/parse"
-	"codeberg.org/TauCeti/mangle-go/symbols"
+	"codeberg.org/TauCeti/mangle-go/engine"
+	"codeberg.org/TauCeti/mangle-go/factstore"
+	"codeberg.org/TauCeti/mangle-go/provenance"
+
+	"verifmc/mg"
 )
 
 func main() {
-	for _, t := range []string{"fn:Union(/number, /string)", "fn:List(/number)", "fn:Struct(/f, /number)", "fn:Tuple(/number, /string, /name)", "fn:Map(/name, /number)"} {
-		bt, _ := parse.BaseTerm(t)
-		h, err := symbols.NewSetHandle(bt)
-		fmt.Printf("%s  fn=%#v err=%v  hasType(1)=%v\n", t, bt.(ast.ApplyFn).Function, err, h.HasType(ast.Number(1)))
+	src := "Decl e(A,B).\nDecl u(A).\nw(X) :- e(X,_), !u(X).\n"
+	pi, err := mg.Analyze(src)
+	if err != nil {
+		panic(err)
 	}
-	fmt.Println(symbols.NewSetHandle(symbols.NewUnionType(ast.NumberBound, ast.StringBound)))
-	h, _ := symbols.NewSetHandle(symbols.NewUnionType(ast.NumberBound, ast.StringBound))
-	fmt.Println(h.HasType(ast.Number(1)))
+	edb, _ := mg.ParseAtoms([]string{"e(1,1)"})
+	store := factstore.NewMultiIndexedArrayInMemoryStore()
+	for _, a := range edb {
+		store.Add(a)
+	}
+	rec := provenance.NewMemoryRecorder()
+	if err := mg.Eval(pi, store, engine.WithDerivationRecorder(rec)); err != nil {
+		panic(err)
+	}
+	goal, _ := mg.ParseAtoms([]string{"w(1)"})
+	for _, ev := range rec.EventsFor(goal[0]) {
+		fmt.Println("EVENT", ev.Rule, ev.Output, ev.PremiseFacts)
+	}
+	proofs, err := provenance.BuildFromRecording(rec, store, goal[0], provenance.Options{MaxProofs: 3})
+	fmt.Println(err)
+	provenance.Print(os.Stdout, proofs)
 }
